@@ -381,6 +381,27 @@ func (tr *Translator) summaryOf(ct *Contract) map[string]bool {
 		}
 		w["$alloc"] = true
 	}
+	// ghost state is written by the contract's own ghost clauses (applied at exit, not by the body)
+	// and by those of its callees: every ghost key the contract lists under modifies counts as
+	// written, so that call sites havoc it before assuming the ensures
+	for _, m := range ct.Modifies {
+		if strings.HasPrefix(m, "X:") || strings.HasPrefix(m, "XS:") {
+			w[m] = true
+		}
+	}
+	for _, g := range ct.Ghosts {
+		if g.All {
+			w["X:"+g.Name] = true
+		} else if g.Clause != nil && g.Clause.Expr != nil {
+			if cl, ok := g.Clause.Expr.(*ast.CompositeLit); ok && len(cl.Elts) == 2 {
+				if _, isLit := cl.Elts[1].(*ast.FuncLit); isLit {
+					w["XS:"+g.Name] = true
+				} else {
+					w["X:"+g.Name] = true
+				}
+			}
+		}
+	}
 	if w["*"] {
 		// body havocs everything: all known keys
 		for k := range sc.memSorts {
@@ -391,6 +412,13 @@ func (tr *Translator) summaryOf(ct *Contract) map[string]bool {
 		}
 	}
 	for k := range w {
+		if strings.HasPrefix(k, "XS:") {
+			sc.memSorts[k] = memSort{idx: []Sx{"Int", tr.c.it.isort()}, leaf: "Int"}
+		} else if strings.HasPrefix(k, "X:") {
+			if _, ok := sc.memSorts[k]; !ok {
+				sc.memSorts[k] = memSort{idx: []Sx{"Int"}, leaf: tr.c.it.isort()}
+			}
+		}
 		if ms, ok := sc.memSorts[k]; ok {
 			summarySorts[key][k] = ms
 			tr.regKey(k, ms.idx, ms.leaf)
